@@ -3,8 +3,7 @@ use crate::common::*;
 use arbitrary::Unstructured;
 use syltmodel::gen::{Gen, GenCfg};
 use syltmodel::print::Plan as SurfacePlan;
-use vcore::luarun::{run_lua, LuaOutcome, Terminal};
-use vcore::{compile, Check, Labels, Outcome, Project, Stats, Step, Tape, Tier, Verdict};
+use vcore::{Check, Labels, Stats, Step, Tape, Tier, Verdict};
 
 pub struct C01;
 pub const CHECK: C01 = C01;
@@ -34,6 +33,10 @@ impl Check for C01 {
                     "closures" => cfg.closures = false,
                     "methods" => cfg.methods = false,
                     x if x.starts_with("fnx=") => cfg.max_fn_exprs = x[4..].parse().unwrap_or(7),
+                    x if x.starts_with("pfnx=") => {
+                        cfg.max_fn_exprs = x[5..].parse().unwrap_or(7);
+                        cfg.fn_exprs_program_wide = true;
+                    }
                     _ => {}
                 }
             }
@@ -46,83 +49,18 @@ impl Check for C01 {
     }
 
     fn evaluate(&self, case: &ProgCase, labels: &mut Labels) -> Verdict {
-        let r = reference(&case.prog, false);
-        if r.ambiguous {
-            return Verdict::Discard("order-ambiguous".into());
-        }
-        if r.nan_seen {
-            return Verdict::Discard("nan-printed".into());
-        }
-        if r.unprintable_seen {
-            return Verdict::Discard("unprintable-printed".into());
-        }
-        let printed = render(&case.prog, &case.plan);
-        let expected = match expected_trace(&r, &printed) {
-            Ok(t) => t,
-            Err(e) => {
-                let short: String = e.chars().take(40).collect();
-                if e.starts_with("ref-dynerror") {
-                    labels.add("ref-dynerror");
-                    if let Ok(d) = std::env::var("SAVE_REJECTED") {
-                        let _ = std::fs::create_dir_all(&d);
-                        let h = vcore::hash64(&printed.text);
-                        let _ = std::fs::write(format!("{}/dyn_{:x}.sy", d, h), format!("// {}\n{}", e, printed.text));
-                    }
-                }
-                return Verdict::Discard(short.split(':').next().unwrap_or("ref").to_string());
+        let ev = crate::trace::trace_eval("C01", case, labels, false);
+        match (ev.verdict, ev.reference) {
+            (Verdict::Pass { .. }, Some(r)) => {
+                use syltmodel::interp::Cov;
+                let cov = cov_labels(&r);
+                let events = r.out.len() + 1;
+                let branch = r.cov[Cov::IfStmt as usize] + r.cov[Cov::IfExpr as usize] + r.cov[Cov::Case as usize] > 0;
+                let call = r.cov[Cov::UserCall as usize] + r.cov[Cov::ClosureCall as usize] + r.cov[Cov::MethodSelf as usize] > 0;
+                Verdict::Pass { nontrivial: events >= 3 && cov.len() >= 4 && branch && call }
             }
-        };
-        let out = compile(&Project::single(printed.text.clone()));
-        let lua = match &out {
-            Outcome::Accepted(b) => b,
-            Outcome::Rejected { errors, bytes_written } => {
-                if *bytes_written > 0 {
-                    return Verdict::Violation {
-                        signature: "C01/rejected-but-wrote-lua".into(),
-                        detail: format!("{} bytes of Lua written although compilation failed: {}", bytes_written, out.short()),
-                    };
-                }
-                labels.add(format!("rejected:{}:{}", errors[0].kind, errors[0].sub));
-                if let Ok(d) = std::env::var("SAVE_REJECTED") {
-                    let _ = std::fs::create_dir_all(&d);
-                    let h = vcore::hash64(&printed.text);
-                    let _ = std::fs::write(format!("{}/rej_{:x}.sy", d, h), format!("// {} col {}..{}\n{}", out.short(), errors[0].col_start, errors[0].col_end, printed.text));
-                }
-                return Verdict::Discard("rejected".into());
-            }
-            Outcome::Panicked { .. } => {
-                labels.add("compiler-panicked");
-                return Verdict::Discard("compiler-panicked".into());
-            }
-        };
-        labels.add("accepted");
-        let got = match run_lua(lua, r.steps * 60 + 400_000) {
-            LuaOutcome::LoadError { class, msg, line } => {
-                return Verdict::Violation {
-                    signature: format!("C01/lua-load/{}", class),
-                    detail: format!("emitted chunk does not load: {} (chunk line {})\n--- source ---\n{}", msg, line, printed.text),
-                };
-            }
-            LuaOutcome::Ran(t) => t,
-        };
-        if let Terminal::OutOfBudget(w) = &got.terminal {
-            return Verdict::Discard(format!("lua-budget-{}", w));
+            (v, _) => v,
         }
-        if let Some((kind, what)) = diff_traces(&expected, &got) {
-            return Verdict::Violation {
-                signature: format!("C01/trace/{}", kind),
-                detail: format!("{}\n--- source ---\n{}", what, printed.text),
-            };
-        }
-        let cov = cov_labels(&r);
-        for c in &cov {
-            labels.add(*c);
-        }
-        let events = expected.lines.len() + 1;
-        let branch = r.cov[syltmodel::interp::Cov::IfStmt as usize] + r.cov[syltmodel::interp::Cov::IfExpr as usize] + r.cov[syltmodel::interp::Cov::Case as usize] > 0;
-        let call = r.cov[syltmodel::interp::Cov::UserCall as usize] + r.cov[syltmodel::interp::Cov::ClosureCall as usize] + r.cov[syltmodel::interp::Cov::MethodSelf as usize] > 0;
-        let nontrivial = events >= 3 && cov.len() >= 4 && branch && call;
-        Verdict::Pass { nontrivial }
     }
 
     fn simplify_at(&self, case: &ProgCase, idx: usize) -> Step<ProgCase> {
